@@ -701,4 +701,24 @@ Section Inv.
       split; [intros Hc; eapply valid_all_le; [exact L4|apply C, Hc]|]. split; [exact I|]. intros F E. apply (N F). apply (N4 F E). }
     destruct r as [[]|e]; [apply post_ok; exact HI5|]. destruct (P4 e eq_refl) as [P|[P|[_ [_ [_ Du]]]]]; try (apply post_pin; [exact HI5|tauto]). discriminate Du.
   Qed.
+
+  (* ---- the LoRaWAN adapter (LorawanRadio): its operations are sequences of the above; the invariant is kept *)
+  Definition keeps {A} : A + rerr -> drv -> mon -> Prop := fun _ d' m' => Inv d' m'.
+  Theorem lw_tx_keeps fuel sf bw cr f pw buffer d m : x_listen x = false -> Inv d m -> wp x (lw_tx K fuel sf bw cr f pw buffer) keeps d m.
+  Proof.
+    intros NL HI. unfold lw_tx. destruct (k_create_mod K sf bw cr f) as [md|e]; cbn [of_res bind wp]; [|exact HI].
+    destruct (k_create_pkt K 8 false 0 true false md) as [pk|e]; cbn [of_res bind wp]; [|exact HI].
+    apply wp_bind. eapply wp_mono; [|apply prepare_for_tx_keeps; exact HI]. intros r d1 m1 [HI1 _]. destruct r as [[]|e]; [|exact HI1].
+    eapply wp_mono; [|apply tx_keeps; [exact NL|exact HI1]]. intros r d2 m2 [HI2 _]. exact HI2.
+  Qed.
+  Theorem lw_setup_rx_keeps sf bw cr f ms d m : Inv d m -> wp x (lw_setup_rx K sf bw cr f ms) keeps d m.
+  Proof.
+    intros HI. unfold lw_setup_rx. destruct (k_create_mod K sf bw cr f) as [md|e]; cbn [of_res bind wp]; [|exact HI].
+    destruct (k_create_pkt K 8 false 255 true true md) as [pk|e]; cbn [of_res bind wp]; [|exact HI].
+    assert (G : forall rm, wp x (prepare_for_rx K rm md pk ;;; Ret pk) keeps d m).
+    { intros rm. apply wp_bind. eapply wp_mono; [|apply prepare_for_rx_keeps; exact HI]. intros r d1 m1 [HI1 _]. destruct r as [[]|e]; exact HI1. }
+    destruct ms as [v|]; cbn [bind]; [|apply G]. destruct (adapter_symbols sf bw v); cbn [bind wp]; [apply G|exact HI].
+  Qed.
+  Theorem lw_low_power_keeps d m : Inv d m -> wp x (lw_low_power K) keeps d m.
+  Proof. intros HI. unfold lw_low_power. eapply wp_mono; [|apply sleep_keeps; exact HI]. intros r d1 m1 [HI1 _]. exact HI1. Qed.
 End Inv.
